@@ -238,9 +238,12 @@ def oracle_e(res, ss, mdl, models):
         except Unsupported:
             res.count("expressions_unsupported_by_oracle")
             return None
-        out[name] = np.broadcast_to(np.asarray(v, dtype=float), (mdl.n,)).copy() if not np.iscomplexobj(v) else np.real(v)
+        nv = int(np.size(var.v)) if np.size(var.v) else mdl.n      # e.g. COI borrows one variable per generator, not per COI device
+        if np.ndim(v) and np.size(v) not in (1, nv):
+            nv = int(np.size(v))
+        out[name] = np.broadcast_to(np.asarray(v, dtype=float), (nv,)).copy() if not np.iscomplexobj(v) else np.real(np.broadcast_to(v, (nv,)))
         with np.errstate(all="ignore"):
-            slack[name] = 1e6 * np.abs(np.broadcast_to(np.asarray(v2, dtype=complex), (mdl.n,)) - np.broadcast_to(np.asarray(v, dtype=complex), (mdl.n,)))
+            slack[name] = 1e6 * np.abs(np.broadcast_to(np.asarray(v2, dtype=complex), (nv,)) - np.broadcast_to(np.asarray(v, dtype=complex), (nv,)))
     out["__slack__"] = slack
     return out
 
